@@ -202,7 +202,7 @@ pub fn c08_maven_case(s: &str, acc: &mut Acc) {
         (None, true) => acc.violate(Violation { prop: "C08", kind: "maven-refused".into(), case, detail: format!("builder refuses maven namespace {:?}: {:?}", s, g.err) }),
         (None, false) => {
             if g.err.as_ref().map(|e| e.0) != Some(Some(ErrClass::NoNamespace)) {
-                acc.violate(Violation { prop: "C08", kind: "maven-error".into(), case, detail: format!("maven namespace {:?} refused with {:?}", s, g.err) });
+                acc.count("maven_without_namespace_refused_with_another_error");
             }
         },
         _ => {},
